@@ -17,7 +17,7 @@ def as_int(rng, v, p=0.35):
     """The integer v, sometimes as a numpy integer scalar (what indexing an int array returns)."""
     if isinstance(v, bool) or not isinstance(v, int) or rng.random() >= p or not (-2 ** 31 < v < 2 ** 31):
         return v
-    return rng.choice([np.int64, np.int64, np.int32, np.intp])(v)
+    return rng.choice([np.int64, np.int64, np.intp])(v)        # (64-bit only: a 32-bit numpy scalar overflows inside numpy when it meets a large Python int)
 
 
 def as_float(rng, v, p=0.3):
@@ -64,6 +64,25 @@ def as_str(rng, s, p=0.3, allow_enum=True):
     if k == 'shout':
         return ShoutLabel(s)
     return enum_member(s)
+
+
+# ---- identifiers that LOOK like patterns or differ from their normalised form ------------------------------------------------
+# plain strings that contain shell-pattern / template metacharacters (read as patterns they would match other ids of the pool), and
+# strings that unicode normalisation (NFC / NFKC) would change or merge.  They are identifiers like any other.
+PATTERN_LIKE = ['{p}*', '{p}?', '{p}[12]', '{p}[1]', '{p}1', '{p}2', '{p}$$', '${p}']
+UNNORMALISED = ['{p}e\u0301', '{p}\u00e9', '{p}\u00b5', '{p}\u03bc', '{p}\u00b2', '{p}\ufb01']
+
+
+def odd_ids(rng, prefix, n, p=0.5):
+    """n distinct identifiers starting with `prefix`: ordinary ones (prefix0, prefix1, ...) mixed with pattern-like / unnormalised ones."""
+    pool = [t.format(p=prefix) for t in PATTERN_LIKE + UNNORMALISED]
+    out = []
+    for j in range(n):
+        cand = rng.choice(pool) if rng.random() < p else f'{prefix}{j}'
+        while cand in out:
+            cand = f'{prefix}{j}' if f'{prefix}{j}' not in out else f'{prefix}{j}_{len(out)}'
+        out.append(cand)
+    return out
 
 
 # ---- falsy but valid user objects ------------------------------------------------------------------------------------------
